@@ -36,9 +36,9 @@ structure Action (α : Type) where
 no `ThreadsafeForwardingResult` if the action counts `startTest` -/
 mutual
 def okShapeG (capsOk : Caps → Bool) (tfrFree : Bool) : Shape → Bool
-  | .sink _ | .tt _ | .text _ | .tbt => true
+  | .sink _ | .fsink _ _ _ | .tt _ | .text _ | .tbt => true
   | .etod c => capsOk (caps c) && okShapeG capsOk tfrFree c
-  | .deco c | .tagger _ _ c | .ffbox _ _ c => okShapeG capsOk tfrFree c
+  | .deco c | .tagger _ _ c => okShapeG capsOk tfrFree c
   | .tfr c => !tfrFree && okShapeG capsOk tfrFree c
   | .multi cs => okShapeGL capsOk tfrFree cs
   | .e2s _ => false
@@ -99,6 +99,9 @@ theorem act_steps : ∀ (s : Shape), okShape A s = true → ∀ (cs : List Call)
   | .sink f, _, c :: cs, st => by
       rw [List.foldl_cons, act_steps (.sink f) rfl cs]
       simp [leavesAbs, leaves, step, A.leaf_sink]
+  | .fsink l b f, _, c :: cs, st => by
+      rw [List.foldl_cons, act_steps (.fsink l b f) rfl cs]
+      simp [leavesAbs, leaves, step, A.leaf_sink]
   | .tt ff, _, c :: cs, st => by
       rw [List.foldl_cons, act_steps (.tt ff) rfl cs]
       simp [leavesAbs, leaves, step, A.leaf_tt]
@@ -150,18 +153,6 @@ theorem act_steps : ∀ (s : Shape), okShape A s = true → ∀ (cs : List Call)
           ∧ ∀ a, em.foldl (fun a c => A.act c a) a = A.act c a := by
         cases c with
         | done => exact ⟨[], rfl, fun a => (A.neutral _ rfl a).symm⟩
-        | setFailfast b => exact ⟨[], rfl, fun a => (A.neutral _ rfl a).symm⟩
-        | _ => exact ⟨[_], rfl, fun _ => rfl⟩
-      obtain ⟨em, h1, h2⟩ := hstep
-      rw [h1, act_steps ch hs']
-      simp only [leavesAbs, leaves, List.map_map, Function.comp_def, h2, List.foldl_cons]
-  | .ffbox l b ch, hs, c :: cs, (f, st) => by
-      have hs' : okShape A ch = true := by simpa [okShape, okShapeL, okShapeG] using hs
-      rw [List.foldl_cons, act_steps (.ffbox l b ch) hs cs]
-      have hstep : ∃ em : List Call, leavesAbs A (.ffbox l b ch) (step (.ffbox l b ch) (f, st) c) = leavesAbs A ch (em.foldl (step ch) st)
-          ∧ ∀ a, em.foldl (fun a c => A.act c a) a = A.act c a := by
-        cases c with
-        | setFailfast b => exact ⟨[], rfl, fun a => (A.neutral _ rfl a).symm⟩
         | _ => exact ⟨[_], rfl, fun _ => rfl⟩
       obtain ⟨em, h1, h2⟩ := hstep
       rw [h1, act_steps ch hs']
@@ -173,7 +164,6 @@ theorem act_steps : ∀ (s : Shape), okShape A s = true → ∀ (cs : List Call)
           ∧ ∀ a, em.foldl (fun a c => A.act c a) a = A.act c a := by
         cases c with
         | done => exact ⟨[], rfl, fun a => (A.neutral _ rfl a).symm⟩
-        | setFailfast b => exact ⟨[], rfl, fun a => (A.neutral _ rfl a).symm⟩
         | startTest t => exact ⟨[.startTest t, .tags n g], rfl, fun a => by simp [A.neutral (.tags n g) rfl]⟩
         | _ => exact ⟨[_], rfl, fun _ => rfl⟩
       obtain ⟨em, h1, h2⟩ := hstep
